@@ -1,13 +1,28 @@
 /-
-  Certificate obligations, part 3 of 8 of the `current` client system (kernel evaluation; one module per
-  part so that lake checks them in parallel). Assembled in `Lemmas/CliCert.lean`.
+  Certificate obligations, parts 24..31 of 64 of the `current` client system (kernel evaluation; 8 modules
+  so that lake checks them in parallel; small parts keep the kernel's memory small).
+  Assembled in `Lemmas/CliCert.lean`.
 -/
 import KmipModel.Model.CliConn
 import KmipModel.Gen.CertCliConn
 namespace Kmip.CliCert
 open Kmip.CliLts Kmip.CliConn Kmip.Gen.CertCliConn
 
-theorem cuClosed3 : partClosed (sys current) codec certCurrent cuP3 = true := by decide +kernel
-theorem cuSafe3 : partSafe codec (badPartial current) cuP3 = true := by decide +kernel
+theorem cuClosed24 : partClosed (sys current) codec certCurrent cuP24 = true := by decide +kernel
+theorem cuSafe24 : partSafe codec (badPartial current) cuP24 = true := by decide +kernel
+theorem cuClosed25 : partClosed (sys current) codec certCurrent cuP25 = true := by decide +kernel
+theorem cuSafe25 : partSafe codec (badPartial current) cuP25 = true := by decide +kernel
+theorem cuClosed26 : partClosed (sys current) codec certCurrent cuP26 = true := by decide +kernel
+theorem cuSafe26 : partSafe codec (badPartial current) cuP26 = true := by decide +kernel
+theorem cuClosed27 : partClosed (sys current) codec certCurrent cuP27 = true := by decide +kernel
+theorem cuSafe27 : partSafe codec (badPartial current) cuP27 = true := by decide +kernel
+theorem cuClosed28 : partClosed (sys current) codec certCurrent cuP28 = true := by decide +kernel
+theorem cuSafe28 : partSafe codec (badPartial current) cuP28 = true := by decide +kernel
+theorem cuClosed29 : partClosed (sys current) codec certCurrent cuP29 = true := by decide +kernel
+theorem cuSafe29 : partSafe codec (badPartial current) cuP29 = true := by decide +kernel
+theorem cuClosed30 : partClosed (sys current) codec certCurrent cuP30 = true := by decide +kernel
+theorem cuSafe30 : partSafe codec (badPartial current) cuP30 = true := by decide +kernel
+theorem cuClosed31 : partClosed (sys current) codec certCurrent cuP31 = true := by decide +kernel
+theorem cuSafe31 : partSafe codec (badPartial current) cuP31 = true := by decide +kernel
 
 end Kmip.CliCert
